@@ -51,7 +51,8 @@ type Plan struct {
 	Tasks      [][]OpSpec  `json:"tasks"`
 	Sched      SchedSpec   `json:"sched"`
 	Faults     []FaultSpec `json:"faults"`
-	Schedule   []Seg       `json:"schedule,omitempty"` // present => replay exactly these segments
+	ReplayMode bool        `json:"replay_mode,omitempty"` // true => execute exactly the segments of Schedule (then id order)
+	Schedule   []Seg       `json:"schedule,omitempty"`
 	Violation  *Violation  `json:"violation,omitempty"`
 	Note       string      `json:"note,omitempty"`
 }
@@ -83,14 +84,17 @@ type Record struct {
 	Violations   []Violation    `json:"violations,omitempty"`
 	Plan         *Plan          `json:"plan,omitempty"` // with the executed schedule, when there is a violation (or on request)
 	Sample       string         `json:"sample,omitempty"`
+	NoisyOps     []string       `json:"noisy_ops,omitempty"`
+	SlowOps      []string       `json:"slow_ops,omitempty"`
+	NoisyDiff    string         `json:"noisy_diff,omitempty"`
 }
 
-const maxBaselineYields = 300000
+const maxBaselineYields = 3000000
 
 // simOpYieldCap cuts off an operation that runs away under simulation only
 // (its baseline stayed below maxBaselineYields); the outcome then differs from
 // the baseline and is reported as a divergence.
-const simOpYieldCap = 20 * maxBaselineYields
+const simOpYieldCap = 4 * maxBaselineYields
 
 // ---- planning ----
 
@@ -384,6 +388,7 @@ func ExecRun(p *Plan) *Record {
 		for o := range b1[t] {
 			if b1[t][o].yields > maxBaselineYields {
 				slow[[2]int{t, o}] = true
+				rec.SlowOps = append(rec.SlowOps, p.Tasks[t][o].Fam+"/"+p.Tasks[t][o].Name)
 			}
 		}
 	}
@@ -397,6 +402,10 @@ func ExecRun(p *Plan) *Record {
 		for o := range b1[t] {
 			if b1[t][o].dump != b2[t][o].dump {
 				noisy[[2]int{t, o}] = true
+				rec.NoisyOps = append(rec.NoisyOps, p.Tasks[t][o].String())
+				if rec.NoisyDiff == "" {
+					rec.NoisyDiff = firstDiff(b1[t][o].dump, b2[t][o].dump)
+				}
 			}
 			if b1[t][o].panicked {
 				rec.ExpPanics++
@@ -440,7 +449,7 @@ func ExecRun(p *Plan) *Record {
 	cfg := &vsimrt.Config{Seed: p.RunSeed, StallTask: int32(p.Sched.Stall), StallFor: p.Sched.StallFor, LowPrio: int32(p.Sched.LowPrio),
 		SiteFlags: siteFlags, NumSites: len(SiteTab)}
 	r := NewRng(Mix(p.RunSeed, 0x5c4ed))
-	if p.Schedule != nil {
+	if p.ReplayMode {
 		cfg.ReplayMode = true
 		for _, s := range p.Schedule {
 			cfg.Replay = append(cfg.Replay, vsimrt.Segment{Task: s.T, N: s.N})
@@ -570,6 +579,7 @@ func ExecRun(p *Plan) *Record {
 	rec.ResultDigest = rd
 	// executed schedule, for replay files
 	ex := *p
+	ex.ReplayMode = true
 	ex.Schedule = make([]Seg, 0, len(stats.Segments))
 	for _, s := range stats.Segments {
 		ex.Schedule = append(ex.Schedule, Seg{T: s.Task, N: s.N})
